@@ -29,7 +29,10 @@ RULE = ("cases = histories of 12..300 statements over 8 root Vars driven by a py
         "every string length 0..20/31/32/100 and numeric boundary, the INT/NUMBER/FLOAT x STRING/SSTRING equality lattice, FLOAT (C++ float) "
         "against INT/NUMBER at and around k*2^24..2^31 (ints a float cannot hold vs the float they round to and its ulp neighbours, both "
         "operand orders, as array elements, object values and contains() arguments; exact integer/Fraction oracle), growth across "
-        "capacities 3,6,12,...,400 with and without a second handle, nesting depth up to 40; non-trivial = distinct case of >= 5 lines "
+        "capacities 3,6,12,...,400 with and without a second handle, nesting depth up to 40; the templated container assignments "
+        "p = Array<int|String|double> / p = Dic<int|String> (ops seta/setd) and p = text / Var::Type on a Var whose ARRAY/OBJ is SHARED "
+        "(copied into a second root, stored in another container, reached as obj[k]; new value shorter/equal/longer than the old capacity), "
+        "all holders read afterwards; every type tag x every converting accessor; non-trivial = distinct case of >= 5 lines "
         "with a mutation and an observation")
 
 # ------------------------------------------------------------------ python simulation
@@ -1857,6 +1860,11 @@ LEVEL_TEXT = (
     "ctorDic, ctorKV, ctorVars, copy, clone — the statements that re-create ANOTHER root, destroying whatever it held, incl. the clone's "
     "source, from literals or from copies / a clone of Vars under other roots); clone_deep_reduction: step_footprint_full (all 22 "
     "statement kinds) implies clone_deep_exec_full; "
+    "(6c) container_assign_rebinds_only (+ _history; seeded change C04-r4): x = Array<T>{..} / x = Dic<T>{..} on a root variable, as the "
+    "driver runs it (AslModel.Var.assignFresh: tmp = Var(c); x = tmp; tmp = Var() with a root no op line can name), in every state "
+    "satisfying the invariant: every other root holds the value it held and denotes the tree it denoted — also when it shares the "
+    "container x held (KeepsRoot: only root x is written, live blocks keep their elements). For a target that is an element/property "
+    "(p = obj[k]) the rebinding is validated by K only (seta/setd on paths, shared_container_assign_cases); "
     "(6b) converting accessors (extension round; hasV, getKeyV, hasTypeV, containsV are now model functions following the source's "
     "switch over the type tag, run by the driver): is_table (is(t) over all tags), conv_int, conv_number_integer (a NUMBER/FLOAT holding an "
     "int-range integer reads back the same through int, Long, double, bool and == the INT, both operand orders), conv_number_trunc "
